@@ -533,7 +533,7 @@ fn main() {
             if args[2] == "c18" {
                 run::check_c18(&src, &imports, None, &mut o);
             } else {
-                let vs: Vec<u64> = match std::env::var("VERIF_VARIANT") { Ok(v) => vec![v.parse().unwrap()], Err(_) => vec![0u64, 3, 255] };
+                let vs: Vec<u64> = match std::env::var("VERIF_VARIANT") { Ok(v) => vec![v.parse().unwrap()], Err(_) => vec![0u64, 3, 255, 16, 32, 64, 128, 1, 2, 4] };
                 for variant in vs {
                     c17_one(&Some(src.clone()), &imports, variant, "replay", &mut o, &mut tie);
                 }
